@@ -15,7 +15,9 @@ from harness.storage import Log, TracingFileStorage
 
 LEVEL = "model_checking"
 
-SHAPES = ["default", "nomerge", "optimize", "delete-only", "clear", "cancel", "loose", "many-small-segments"]
+# "tenth-generation": the crashing commit writes generation 10 (the generation number gains a digit)
+SHAPES = ["default", "nomerge", "optimize", "delete-only", "clear", "cancel", "loose", "many-small-segments",
+          "tenth-generation"]
 
 
 def run_txn(ix, log, name, shape, rng):
@@ -62,7 +64,7 @@ def run_txn(ix, log, name, shape, rng):
 def build_base(shape, rng):
     """Base index in the parent (traced); returns the IxWorld."""
     w = ixdriver.IxWorld(storage="file", compound=(shape != "loose"))
-    ncommits = 6 if shape == "many-small-segments" else rng.choice([2, 3])
+    ncommits = 6 if shape == "many-small-segments" else 9 if shape == "tenth-generation" else rng.choice([2, 3])
     if shape == "clear":
         ncommits = 2
     k = 0
@@ -204,7 +206,8 @@ def check(run):
                 "IndexStoreTrace.tla; non-trivial = accepted trace with >=2 commits")
     ixcommon.model_check(run, "IndexStoreMC_small.cfg" if quick else "IndexStoreMC.cfg", "IndexStoreMC")
     items = []
-    shapes = SHAPES if not quick else [SHAPES[run.seed % len(SHAPES)], "default", "many-small-segments", "optimize"]
+    shapes = SHAPES if not quick else [SHAPES[run.seed % len(SHAPES)], "default", "many-small-segments", "optimize",
+                                       "tenth-generation"]
     shapes = list(dict.fromkeys(shapes))
     points = 0
     for shape in shapes:
